@@ -26,7 +26,23 @@ seen = set()
 def add(t):
     if t not in seen:
         seen.add(t); types.append(t)
+# every remaining leaf type that has an Identifiable impl: as itself and under a few constructors (a copy-paste slip in one
+# of the rarely used leaves must not go unnoticed)
+extra_leaves = ["std::num::NonZeroU16", "std::num::NonZeroU64", "std::num::NonZeroU128", "std::num::NonZeroUsize", "std::num::NonZeroI8",
+    "std::num::NonZeroI16", "std::num::NonZeroI32", "std::num::NonZeroI128", "std::num::NonZeroIsize",
+    "std::sync::atomic::AtomicU8", "std::sync::atomic::AtomicU16", "std::sync::atomic::AtomicU64", "std::sync::atomic::AtomicUsize",
+    "std::sync::atomic::AtomicI8", "std::sync::atomic::AtomicI16", "std::sync::atomic::AtomicI32", "std::sync::atomic::AtomicI64",
+    "std::sync::atomic::AtomicIsize", "std::time::Instant", "std::time::SystemTime", "std::sync::atomic::Ordering", "std::convert::Infallible",
+    "std::hash::RandomState", "std::hash::DefaultHasher", "std::marker::PhantomPinned", "std::io::Error", "std::io::ErrorKind", "std::fmt::Error",
+    "std::alloc::Layout", "std::alloc::LayoutError", "std::net::Ipv6Addr", "std::net::SocketAddr", "std::net::SocketAddrV4", "std::net::SocketAddrV6",
+    "smallvec::SmallVec<[u8; 4]>", "smallvec::SmallVec<[u8; 8]>", "smallvec::SmallVec<[u16; 4]>",
+    "bitvec::vec::BitVec<u8, bitvec::order::Lsb0>", "bitvec::vec::BitVec<u8, bitvec::order::Msb0>", "bitvec::vec::BitVec<u16, bitvec::order::Lsb0>",
+    "bitvec::vec::BitVec<usize, bitvec::order::Lsb0>", "bitvec::order::Lsb0", "bitvec::order::Msb0"]
 for l in leaves + unsized: add(l)
+for l in extra_leaves:
+    add(l)
+    for u in ["Vec<{}>", "Option<{}>", "Box<{}>", "[{}; 2]", "({},)"]:
+        add(u.format(l))
 for u in unary_sized:
     if "Cow" in u:
         for l in ["String", "u8", "Vec<u8>"]: add(u.format(l))
